@@ -238,7 +238,7 @@ def computedExecute (sub : SubRun) (g : G) (c : Nat) (a : Nat) : G Ã— Res (Val Ã
         let (h', at') := g.heap.alloc (.dict [])
         ({ g with heap := (if a < h'.size then h'.set! a (.comp expr (some at') code) else h') }, at')
     let parent := g.ctxs[c]!
-    let n := parent.numOp + 100
+    let n := satAdd parent.numOp 100
     let g := setOps g c n
     let newCtx : Ctx := { attrs := attrs, up := some c, numOp := n, depth := parent.depth + 1 }
     let cid := g.ctxs.size
@@ -315,7 +315,7 @@ def funcInvoke (sub : SubRun) (g : G) (c : Nat) (a : Nat) (args : List Val) : G 
       let h' := h'.setDict attrs ((params.zip args).foldl (fun acc p => dictSet acc p.1 p.2) [])
       let g := { g with heap := h' }
       let parent := g.ctxs[c]!
-      let n := parent.numOp + 100
+      let n := satAdd parent.numOp 100
       let g := setOps g c n
       let cid := g.ctxs.size
       let g := { g with ctxs := g.ctxs.push { attrs := attrs, up := some c, numOp := n, depth := parent.depth + 1 } }
